@@ -122,9 +122,21 @@ def circumPoints (verts : List (V3 α)) : List (V3 α) :=
 def circumSystemSphere (verts : List (V3 α)) : List (Row α) :=
   (circumPoints verts).map fun p => ⟨p, lit 0, V3.dot p p / lit 2⟩
 
-/-- `Polygon.circumcircle`: the same rows followed by the row `normal`, rhs `0` -/
+/-- the rows of `Polygon.circumcircle` with the in-plane constraint row left as the UNIT normal (the
+system the code solved before 0897fc7). It has the same right-hand sides as the system solved now
+(`circumSystemCircleScaled`), hence the same `circumAtol`; the tail `circumcircle` below refers to it
+only through `circumAtol` (= `1e-8 * np.max(half_point_lengths) ** 2`). -/
 def circumSystemCircle (verts : List (V3 α)) (normal : V3 α) : List (Row α) :=
   circumSystemSphere verts ++ [⟨normal, lit 0, lit 0⟩]
+
+/-- `np.max(np.linalg.norm(points[:-1], axis=1))` (repair 0897fc7) -/
+def planeRowScale (verts : List (V3 α)) : α := listMax ((circumPoints verts).map V3.norm)
+
+/-- the system `Polygon.circumcircle` hands to `np.linalg.lstsq` (since 0897fc7): the rows
+`v_i − v_0` with rhs `|·|²/2`, followed by the in-plane constraint row
+`points[-1] *= np.max(np.linalg.norm(points[:-1], axis=1))`, i.e. `scale · normal`, rhs `0` -/
+def circumSystemCircleScaled (verts : List (V3 α)) (normal : V3 α) : List (Row α) :=
+  circumSystemSphere verts ++ [⟨V3.smul (planeRowScale verts) normal, lit 0, lit 0⟩]
 
 /-- `len(self.vertices) > k and not np.isclose(resids, 0, atol=atol)`; `resids` is the (0- or
     1-element) array returned by lstsq; the truth value of an empty array raises `ValueError`
